@@ -20,6 +20,8 @@ sys.path.insert(0, os.path.join(VERIF, "tools"))
 import build as builder  # noqa: E402
 
 WORKERS = int(os.environ.get("VERIF_WORKERS", "16"))
+WORKDIR = os.path.join(VERIF, "work", "d%d" % os.getpid())     # scratch trees of path_sim (never /tmp); removed at exit
+CHILD_ENV = dict(os.environ, VERIF_WORK=WORKDIR)
 
 # property -> legs.  A leg = (harness, flavour, runs quick, runs thorough)
 PROPS = {
@@ -97,7 +99,7 @@ class Leg:
             cmd = self.base_cmd() + ["--loop", "--from", str(start), "--to", str(self.runs), "--stride", str(nslots)]
             errpath = os.path.join(builder.BUILD, "err-%s-%s-%d-%d.txt" % (self.prop, self.harness, os.getpid(), slot))
             with open(errpath, "w") as ef:
-                p = subprocess.Popen(cmd, stdout=subprocess.PIPE, stderr=ef, text=True, bufsize=1 << 16)
+                p = subprocess.Popen(cmd, stdout=subprocess.PIPE, stderr=ef, text=True, bufsize=1 << 16, env=CHILD_ENV)
                 last_idx = start - nslots
                 vline = None
                 last_summary = None
@@ -262,7 +264,8 @@ def write_evidence(prop, tier, seed, legs, wall, violations, extra_notes):
 def replay(prop, path):
     j = json.load(open(path))
     exe = builder.build(j["harness"], j.get("flavour", "A"))
-    r = subprocess.run([exe, "--prop", j["property"], "--flavour", j.get("flavour", "A"), "--replay", path], capture_output=True, text=True)
+    os.makedirs(WORKDIR, exist_ok=True)
+    r = subprocess.run([exe, "--prop", j["property"], "--flavour", j.get("flavour", "A"), "--replay", path], capture_output=True, text=True, env=CHILD_ENV)
     sys.stdout.write(r.stdout)
     want = j["result"]["class"]
     got = None
@@ -313,7 +316,7 @@ def main():
             print("candidate violation: property=%s harness=%s run=%d class=%s\n  %s" % (prop, leg.harness, idx, cls, detail[:400]))
             os.makedirs(os.path.join(VERIF, "replays"), exist_ok=True)
             out = os.path.join(VERIF, "replays", "%s-%s-seed%d-run%d.json" % (prop, leg.harness, seed, idx))
-            r = subprocess.run(leg.base_cmd() + ["--investigate", str(idx), "--out", out], capture_output=True, text=True)
+            r = subprocess.run(leg.base_cmd() + ["--investigate", str(idx), "--out", out], capture_output=True, text=True, env=CHILD_ENV)
             sys.stdout.write(r.stdout)
             if r.returncode != 10:
                 leg.machinery.append("investigation of run %d did not confirm the violation (exit %d): %s" % (idx, r.returncode, r.stderr[-500:]))
@@ -360,4 +363,10 @@ def main():
 
 
 if __name__ == "__main__":
-    sys.exit(main())
+    import shutil
+    os.makedirs(WORKDIR, exist_ok=True)
+    try:
+        rc = main()
+    finally:
+        shutil.rmtree(WORKDIR, ignore_errors=True)
+    sys.exit(rc)
